@@ -125,12 +125,17 @@ def sym_abs(x):
 
 
 class OpsNumpy(RunnerNumpy):
-    def abs(self, x):
+    def abs(self, x, out=None):
         if isinstance(x, np.ndarray) and x.dtype == object:
-            return _shim.emap(sym_abs, x)
-        if isinstance(x, SR):
-            return sym_abs(x)
-        return np.abs(x)
+            r = _shim.emap(sym_abs, x)
+        elif isinstance(x, SR):
+            r = sym_abs(x)
+        else:
+            r = np.abs(x)
+        if out is None:
+            return r
+        out[...] = r  # numpy's out= semantics: the result is written into (and is) `out`
+        return out
 
     absolute = abs
 
@@ -198,8 +203,9 @@ def load_world():
             if self.contentless:
                 self.cache[header] = None
                 return None
-            self.cache[header] = found[0][1]
-            return found[0][1]
+            op = _copy_op(w, found[0][1])  # loading de-serialises: a fresh object every time
+            self.cache[header] = op
+            return op
 
         def __setitem__(self, header, operator):
             self.access.assert_writeable()
@@ -211,10 +217,11 @@ def load_world():
                 self.cache[header] = None
                 return
             assert operator is not None
+            saved = _copy_op(w, operator)  # saving serialises: later in-place changes of `operator` do not reach the disk
             if found:
-                found[0][1] = operator
+                found[0][1] = saved
             else:
-                self.disk.append([header, operator])
+                self.disk.append([header, saved])
             self.cache[header] = operator
 
     w.ModelInventory = ModelInventory
@@ -265,6 +272,19 @@ def load_world():
     return w
 
 
+def _copy_op(w, op):
+    if op is None:
+        return None
+    return w.items.Operator(op.operator.copy(), None if op.error is None else op.error.copy())
+
+
+def _same_entries(a, b):
+    """same symbols entry by entry (object identity of the immutable values)"""
+    if a is None or b is None:
+        return a is None and b is None
+    return a.shape == b.shape and all(x is y for x, y in zip(a.flat, b.flat))
+
+
 class StubParts:
     """parts.evolve / parts.match by contract: an Operator for the recipe; fresh symbols per call."""
 
@@ -283,17 +303,23 @@ class StubParts:
     def evolve(self, eko, recipe):
         n = len(self.calls)
         op = self.w.items.Operator(self._tensor("E%d" % n), self._tensor("dE%d" % n) if self.with_error else None)
-        self.calls.append(("evolve", recipe, op))
+        self.calls.append(("evolve", recipe, _copy_op(self.w, op)))
+        if self.with_error:
+            for e in op.error.flat:
+                assume(e, ">=0")
         return op
 
     def match(self, eko, recipe):
         n = len(self.calls)
         op = self.w.items.Operator(self._tensor("M%d" % n), self._tensor("dM%d" % n) if self.with_error else None)
-        self.calls.append(("match", recipe, op))
+        self.calls.append(("match", recipe, _copy_op(self.w, op)))
+        if self.with_error:
+            for e in op.error.flat:
+                assume(e, ">=0")
         return op
 
 
-def make_cards(w, nf0, targets, ratios="sym", coincide=()):
+def make_cards(w, nf0, targets, ratios="sym", coincide=(), ordered=True):
     """symbolic cards. targets: list of nf (or None); returns (theory, operator, W, mu0, ts).
     coincide: list of ('t0','w2') / ('t1','t0') / ('mu0','w1') pairs forcing a scale to be another one."""
     ms = [SR.var("m%d" % q) for q in (4, 5, 6)]
@@ -306,8 +332,9 @@ def make_cards(w, nf0, targets, ratios="sym", coincide=()):
     else:
         ks = [1.0, 2.0, 0.5]
     W = [k_ * k_ * m_ * m_ for k_, m_ in zip(ks, ms)]  # the statement's walls: (ratio * mass)^2
-    assume(W[1] - W[0], ">0")
-    assume(W[2] - W[1], ">0")
+    if ordered:
+        assume(W[1] - W[0], ">0")
+        assume(W[2] - W[1], ">0")
     named = {"w1": W[0], "w2": W[1], "w3": W[2]}
     co = dict(coincide)
 
@@ -394,19 +421,20 @@ def _same_header(w, ha, hb):
 # ---------------------------------------------------------------------------
 # cases
 # ---------------------------------------------------------------------------
-def case_solve(log, nf0, targets, shape=(2, 1, 2, 1), ratios="sym", coincide=(), max_paths=3000):
+def case_solve(log, nf0, targets, shape=(2, 1, 2, 1), ratios="sym", coincide=(), max_paths=3000, ordered=True, with_error=False):
     w = load_world()
     log.encode(w.man.solve, w.rec.create, w.rec._create, w.rec._elements, w.ops.retrieve, w.ops._parts, w.ops._retrieve, w.ops.join,
                w.ops._dotop, w.ops._dot4, w.com.atlas, w.runcards.masses, w.mat.Atlas.matched_path, w.mat.Atlas.path,
                w.items.Evolution.from_atlas, w.items.Matching.from_atlas, w.items.Target.from_ep, w.struct.EKO.load_recipes,
                w.struct.EKO.__delattr__, w.inv.Inventory.__delitem__, w.inv.Inventory.empty)
     decide = Decider(log)
-    kw = {"nf0": nf0, "targets": list(targets), "coincide": [list(c) for c in coincide]}
-    tag = "[nf0=%s targets=%s%s]" % (nf0, list(targets), (" " + ",".join("%s=%s" % c for c in coincide)) if coincide else "")
+    kw = {"nf0": nf0, "targets": list(targets), "coincide": [list(c) for c in coincide], "ordered": ordered, "with_error": with_error}
+    tag = "[nf0=%s targets=%s%s%s%s]" % (nf0, list(targets), (" " + ",".join("%s=%s" % c for c in coincide)) if coincide else "",
+                                       "" if ordered else " matching scales in any order", " parts with errors" if with_error else "")
 
     def run():
-        theory, operator, W, mu0, ts = make_cards(w, nf0, targets, ratios, coincide)
-        stub = StubParts(w, shape)
+        theory, operator, W, mu0, ts = make_cards(w, nf0, targets, ratios, coincide, ordered)
+        stub = StubParts(w, shape, with_error=with_error)
         w.man.parts = stub
         del w.Factory.built[:]
         w.man.solve(theory, operator, "/nonexistent/eko.tar")
@@ -449,7 +477,11 @@ def case_solve(log, nf0, targets, shape=(2, 1, 2, 1), ratios="sym", coincide=(),
                 ok_once = False
                 why.append("stored but not needed: %r" % (type(h).__name__,))
         dec(z3.BoolVal(ok_once), "every needed part is stored exactly once and nothing else is", "recipes._create:once")
-        calls_ok = len(stub.calls) == len(allw) and all(any(op is op2 for _k2, _h2, op2 in allw) for _k, _r, op in stub.calls)
+        calls_ok = len(stub.calls) == len(allw) and all(any(_same_entries(op.operator, op2.operator) for _k2, _h2, op2 in allw) for _k, _r, op in stub.calls)
+        # the archive holds what was computed (nothing altered the parts between computation and storage)
+        on_disk = [op for _h, op in eko.parts.disk] + [op for _h, op in eko.parts_matching.disk]
+        calls_ok = calls_ok and len(on_disk) == len(stub.calls) and all(
+            any(_same_entries(op.operator, d.operator) and _same_entries(op.error, d.error) for d in on_disk) for _k, _r, op in stub.calls)
         kinds_ok = all((k == "evolve") == isinstance(r, w.items.Evolution) for k, r, _o in stub.calls)
         dec(z3.BoolVal(calls_ok and kinds_ok), "each part is computed once, evolutions by evolve and matchings by match", "managed.solve:once")
         # ---- product --------------------------------------------------------------------------------
@@ -466,14 +498,18 @@ def case_solve(log, nf0, targets, shape=(2, 1, 2, 1), ratios="sym", coincide=(),
                 if not cands:
                     missing = True
                     break
-                tens.append([c.operator for c in cands])
+                tens.append(cands)
             if missing:
                 dec(z3.BoolVal(False), "all parts of the path of target nf=%s are in the archive" % nf, "operators.retrieve:parts")
                 continue
-            goal = z3.Or([tensors_equal(stored[0].operator, product_later_left(list(choice))) for choice in itertools.product(*tens)])
+            goal = z3.Or([tensors_equal(stored[0].operator, product_later_left([c.operator for c in choice])) for choice in itertools.product(*tens)])
             dec(goal, "operator of target nf=%s == ordered product (later on the left) of the %d parts of its path" % (nf, len(els)),
                 "operators.join:product")
-            dec(z3.BoolVal(stored[0].error is None), "no error array when the parts have none", "operators._dotop:error-none")
+            if with_error:
+                goal = z3.Or([tensors_equal(stored[0].error, oracle_join(list(choice))[1]) for choice in itertools.product(*tens)])
+                dec(goal, "error of target nf=%s == |A| dB + dA |B| accumulated along its path" % nf, "operators._dotop:error")
+            else:
+                dec(z3.BoolVal(stored[0].error is None), "no error array when the parts have none", "operators._dotop:error-none")
         log.twin("domain " + tag)
         log.collect_ctx()
 
@@ -496,20 +532,10 @@ def case_join(log, n, shape=(2, 1, 2, 1), none_at=None):
             op = stub.evolve(None, None)
             if none_at == i:
                 op = w.items.Operator(op.operator, None)
-            else:
-                for e in op.error.flat:
-                    assume(e, ">=0")
             ops.append(op)
+        pristine = [_copy_op(w, op) for op in ops]
         got = w.ops.join(ops)
-        # oracle: accumulate from the target side, exactly the documented linear propagation
-        val = ops[-1].operator
-        err = ops[-1].error
-        for op in reversed(ops[:-1]):
-            if err is not None and op.error is not None:
-                err = _add(dot4_plain(_absarr(val), _absarr(op.error)), dot4_plain(_absarr(err), _absarr(op.operator)))
-            else:
-                err = None
-            val = dot4_plain(val, op.operator)
+        val, err = oracle_join(pristine)
 
         def dec(goal, what, key):
             sym = R.touched()
@@ -518,11 +544,27 @@ def case_join(log, n, shape=(2, 1, 2, 1), none_at=None):
 
         dec(tensors_equal(got.operator, val), "join == product with later elements on the left", "operators.join:product")
         dec(tensors_equal(got.error, err), "error == |A| dB + dA |B| accumulated along the join (None if an input has none)", "operators._dotop:error")
+        dec(zand([tensors_equal(a.operator, b.operator) for a, b in zip(ops, pristine)] + [tensors_equal(a.error, b.error) for a, b in zip(ops, pristine)]),
+            "join leaves the operators it is given unchanged (they stay cached and are shared between targets)", "operators._dotop:inputs-unchanged")
         log.twin("domain " + tag)
         log.collect_ctx()
 
     _r, pm = explore(run)
     log.path_stats(pm)
+
+
+def oracle_join(ops):
+    """value and error of the join of operators given in path order (origin -> target): accumulate from the target side,
+    err(A B) = |A| dB + dA |B| (the documented linear propagation), None as soon as one factor has no error."""
+    val = ops[-1].operator
+    err = ops[-1].error
+    for op in reversed(ops[:-1]):
+        if err is not None and op.error is not None:
+            err = _add(dot4_plain(_absarr(val), _absarr(op.error)), dot4_plain(_absarr(err), _absarr(op.operator)))
+        else:
+            err = None
+        val = dot4_plain(val, op.operator)
+    return val, err
 
 
 def _absarr(a):
@@ -557,7 +599,7 @@ def _tensor_for(kind, fields, shape):
     return rng.uniform(-1.0, 1.0, size=shape)
 
 
-def _scales_from_point(point, nt, coincide):
+def _scales_from_point(point, nt, coincide, ordered=True):
     """rational model -> exactly representable linear scales; equal rationals get the identical float."""
     names = ["w1", "w2", "w3", "mu0"] + ["t%d" % i for i in range(nt)]
     q = {}
@@ -578,7 +620,7 @@ def _scales_from_point(point, nt, coincide):
         q[n] = Fraction(v)
     for a, b in coincide:
         q[a] = q[b]
-    if not (0 < q["w1"] < q["w2"] < q["w3"]) or any(not (0 < q[n] < 10**12) for n in names):
+    if (ordered and not (0 < q["w1"] < q["w2"] < q["w3"])) or any(not (0 < q[n] < 10**12) for n in names):
         return None
     lin = {}
     for n in names:
@@ -591,7 +633,7 @@ def _scales_from_point(point, nt, coincide):
     return lin
 
 
-def replay_solve(point, nf0, targets, coincide=()):
+def replay_solve(point, nf0, targets, coincide=(), ordered=True, with_error=False):
     import pathlib
     import shutil
     import tempfile
@@ -604,7 +646,7 @@ def replay_solve(point, nf0, targets, coincide=()):
     from ekobox import cards
 
     nt = len(targets)
-    lin = _scales_from_point(point, nt, [tuple(c) for c in coincide])
+    lin = _scales_from_point(point, nt, [tuple(c) for c in coincide], ordered)
     if lin is None:
         return None
     tc = cards.example.theory()
@@ -625,12 +667,14 @@ def replay_solve(point, nf0, targets, coincide=()):
         calls.append(recipe)
         assert isinstance(recipe, Evolution)
         # depends on cliff, as the real parts.evolve does (is_threshold=recipe.cliff)
-        return Operator(_tensor_for("E", (recipe.origin, recipe.target, recipe.nf, bool(recipe.cliff)), shape), None)
+        f = (recipe.origin, recipe.target, recipe.nf, bool(recipe.cliff))
+        return Operator(_tensor_for("E", f, shape), np.abs(_tensor_for("dE", f, shape)) * 1e-3 if with_error else None)
 
     def fake_match(eko, recipe):
         calls.append(recipe)
         assert isinstance(recipe, Matching)
-        return Operator(_tensor_for("M", (recipe.scale, recipe.hq, bool(recipe.inverse)), shape), None)
+        f = (recipe.scale, recipe.hq, bool(recipe.inverse))
+        return Operator(_tensor_for("M", f, shape), np.abs(_tensor_for("dM", f, shape)) * 1e-3 if with_error else None)
 
     old = parts.evolve, parts.match
     parts.evolve, parts.match = fake_evolve, fake_match
@@ -639,9 +683,11 @@ def replay_solve(point, nf0, targets, coincide=()):
         path = pathlib.Path(d) / "eko.tar"
         managed.solve(tc, oc, path)
         got = {}
+        goterr = {}
         with EKO.read(path) as e:
             for ep, op in e.items():
                 got[(float(ep[0]), ep[1])] = np.array(op.operator)
+                goterr[(float(ep[0]), ep[1])] = None if op.error is None else np.array(op.error)
     finally:
         parts.evolve, parts.match = old
         shutil.rmtree(d, ignore_errors=True)
@@ -655,10 +701,24 @@ def replay_solve(point, nf0, targets, coincide=()):
         t2 = lin["t%d" % i] ** 2
         els = path_elements(walls, (mu20, nf0), (t2, nf))
         prod = np.eye(N)
+        mats = []
         for el in els:
             needed.add(el)
-            ten = _tensor_for("E", (el[1], el[2], el[3], bool(el[4])), shape) if el[0] == "seg" else _tensor_for("M", (el[1], el[2], bool(el[3])), shape)
+            kind, f = ("E", (el[1], el[2], el[3], bool(el[4]))) if el[0] == "seg" else ("M", (el[1], el[2], bool(el[3])))
+            ten = _tensor_for(kind, f, shape)
+            mats.append((ten.reshape(N, N), np.abs(_tensor_for("d" + kind, f, shape)).reshape(N, N) * 1e-3))
             prod = ten.reshape(N, N) @ prod  # later on the left
+        if with_error:
+            # |A| dB + dA |B| accumulated from the target side
+            val, err = mats[-1]
+            for o, do in reversed(mats[:-1]):
+                err = np.abs(val) @ do + err @ np.abs(o)
+                val = val @ o
+            ge = goterr.get((t2, nf))
+            if ge is None:
+                bad.append("target (%r, %r) has no error array although every part has one" % (t2, nf))
+            elif not np.allclose(ge.reshape(N, N), err, rtol=1e-9, atol=1e-13):
+                bad.append("error of target (%r, %r) is not |A| dB + dA |B| accumulated along its path (max deviation %.3g)" % (t2, nf, float(np.max(np.abs(ge.reshape(N, N) - err)))))
         g = got.get((t2, nf))
         if g is None:
             bad.append("no operator stored for target (%r, %r); stored: %r" % (t2, nf, sorted(got, key=str)))
@@ -686,7 +746,9 @@ def replay_join(point, n, shape, none_at=None):
     ops = []
     for i in range(n):
         ops.append(Operator(rng.uniform(-1, 1, size=shape), None if none_at == i else rng.uniform(0, 0.1, size=shape)))
-    got = operators.join(ops)
+    given = list(ops)
+    ops = [Operator(o.operator.copy(), None if o.error is None else o.error.copy()) for o in given]  # pristine copies for the oracle
+    got = operators.join(given)
     A = shape[0] * shape[1]
     val = ops[-1].operator.reshape(A, A)
     err = None if ops[-1].error is None else ops[-1].error.reshape(A, A)
@@ -704,6 +766,9 @@ def replay_join(point, n, shape, none_at=None):
         bad.append("error is %s but should be %s" % ("None" if got.error is None else "an array", "None" if err is None else "an array"))
     elif err is not None and not np.allclose(got.error.reshape(A, A), err, rtol=1e-10, atol=1e-13):
         bad.append("error != |A| dB + dA |B| (max deviation %.3g)" % float(np.max(np.abs(got.error.reshape(A, A) - err))))
+    if any(not np.array_equal(a.operator, b.operator) or ((a.error is None) != (b.error is None)) or (a.error is not None and not np.array_equal(a.error, b.error))
+           for a, b in zip(given, ops)):
+        bad.append("join modified the operators it was given (they stay cached and are shared between targets)")
     if bad:
         return {"detail": "join of %d random operators of shape %r (seed %d): %s" % (n, shape, seed, "; ".join(bad))}
     return None
@@ -726,16 +791,19 @@ def main():
         "coincidences target = wall / target = target / target = initial scale are reached by forking on header equality; in addition %d two-target "
         "configurations with one target imposed exactly on a matching scale that the other target crosses (both listing orders)" % (14 if thorough else 6),
         "part tensors of shape %s with independent symbolic entries (matrix products do not commute)" % ("(2,1,2,1), (1,2,1,2) and (2,2,2,2)" if thorough else "(2,1,2,1) and (1,2,1,2)"),
-        "error rule: join of 2..%d operators with symbolic errors >= 0, one input without error" % (4 if thorough else 3),
+        "error rule: join of 2..%d operators with symbolic errors >= 0, one input without error; join must leave its inputs unchanged; "
+        "%d multi-target solve configurations whose parts carry errors (operator and error of every target decided)" % (4 if thorough else 3, 8 if thorough else 3),
+        "%d configurations with the three matching scales in any order (explicit target nf)" % (10 if thorough else 4),
     ]
     chk.out_of_claim = [
         "archive round trip (npy/lz4/tar/yaml, file names derived from hash(header)): the Inventory disk side is a header->content model",
         "the numerical content of the parts (parts.evolve / parts.match are stubs returning a fresh tensor per call)",
-        "coincident or unsorted matching scales, MSbar masses (msbar_masses.compute is numerical)",
+        "coincident matching scales; default (None) target nf with unsorted matching scales (numpy.digitize refuses them); MSbar masses (msbar_masses.compute is numerical)",
         "nf0 = None (default initial nf) in the solve cases; more than 3 targets",
     ]
     chk.stubs = [
-        "EKO.create(path)/builder -> model EKO holding five model inventories (real Inventory cache logic, disk = list of [header, content])",
+        "EKO.create(path)/builder -> model EKO holding five model inventories (real Inventory cache logic, disk = list of [header, content]; "
+        "saving and loading copy the arrays, as serialisation does, so in-place changes of a cached operator never reach the disk but do reach later users of the cache)",
         "parts.evolve / parts.match -> Operator(tensor of fresh symbols, None), one per call, calls recorded",
         "numpy.abs in eko.runner.operators -> algebraic atom A >= 0, A^2 = x^2; numpy.inf -> symbol INF above every finite scale",
         "hash(symbolic scalar) = 0 so that dict/set behaviour on headers is decided by ==, i.e. by the solver",
@@ -766,6 +834,18 @@ def main():
         chk.case("solve.onwall.%s-%s,%s.%s=%s" % (nf0, tg[0], tg[1], co[0], co[1]), case_solve, nf0=nf0, targets=list(tg), ratios="fixed", coincide=[co])
         if thorough:
             chk.case("solve.onwall.symratios.%s-%s,%s.%s=%s" % (nf0, tg[0], tg[1], co[0], co[1]), case_solve, nf0=nf0, targets=list(tg), coincide=[co])
+    # matching scales in any order (k_c m_c may exceed k_b m_b ...): every quark still switches on/off at its own scale
+    unordered = [(3, (6,)), (6, (3,)), (4, (6, 5)), (5, (3, 6))]
+    if thorough:
+        unordered += [(3, (5, 4)), (6, (4, 5)), (4, (3, 3)), (5, (6, 4, 3)), (3, (4,)), (5, (4,))]
+    for nf0, tg in unordered:
+        chk.case("solve.unordered.%s-%s" % (nf0, ",".join(map(str, tg))), case_solve, nf0=nf0, targets=list(tg), ratios="fixed", ordered=False)
+    # parts carrying errors, targets sharing parts (in particular a matching, which stays cached between targets)
+    witherr = [(3, (4, 4)), (5, (4, 3)), (4, (5, 6))]
+    if thorough:
+        witherr += [(3, (5, 4)), (6, (5, 5)), (4, (3, 5)), (3, (4, 4, 5)), (6, (3, 4))]
+    for nf0, tg in witherr:
+        chk.case("solve.errors.%s-%s" % (nf0, ",".join(map(str, tg))), case_solve, nf0=nf0, targets=list(tg), ratios="fixed", with_error=True)
     nfo = (3, 4, 5, 6, None)
     for nf0 in (3, 4, 5, 6):
         for nff in nfo:
